@@ -41,6 +41,8 @@ type c15Cycle struct {
 	// LateMS: single datagrams sent this many milliseconds AFTER the signal, into the shutdown window, following
 	// a quiet period (the receive loop may still be blocked in a read when the work queue is closed)
 	LateMS []int `json:"late_ms,omitempty"`
+	// CPUs > 0: this instance runs with its CPU affinity restricted to that many CPUs (0 = all)
+	CPUs int `json:"cpus,omitempty"`
 }
 
 type c15Case struct {
@@ -54,9 +56,11 @@ type c15Case struct {
 	OtherFS bool `json:"other_fs,omitempty"`
 	// Ambient: further valid settings the property does not depend on (verbose, dynamic-workers, cpu-cap)
 	Ambient map[string]string `json:"ambient,omitempty"`
+	// RelCache: cache-file settings are relative names; the working directory differs from the configuration's
+	RelCache bool `json:"rel_cache,omitempty"`
 }
 
-const c15Rule = "case = 1..3 stop/start cycles of the real collector binary (2..8 workers per protocol; in about 3 of 4 cases a generated subset of the four protocols is switched off by configuration, at least one of IPFIX / NetFlow v9 stays on; rawSocket sink and restful stats owned by the harness, per-instance pid and cache files, in a quarter of the cases on a file system other than the temporary directory's) with 1..8 exporters on 127.0.0.x and ::1: " +
+const c15Rule = "case = 1..3 stop/start cycles of the real collector binary (each instance with all CPUs or its affinity restricted to 1, 2, 4 or 8; 2..8 workers per protocol; in about 3 of 4 cases a generated subset of the four protocols is switched off by configuration, at least one of IPFIX / NetFlow v9 stays on; rawSocket sink and restful stats owned by the harness, per-instance pid and cache files (in a quarter of the cases given as relative names with a working directory other than the configuration's), in a quarter of the cases on a file system other than the temporary directory's) with 1..8 exporters on 127.0.0.x and ::1: " +
 	"per cycle new IPFIX / NetFlow v9 templates are announced (or all known ones redefined with a shorter definition, so that the next cache file is shorter than the one it replaces) and acknowledged (a data message using them reached the sink), sFlow/NetFlow v5 noise, a data burst, then SIGTERM or SIGINT after a drawn delay, " +
 	"optionally with traffic (data and announcements of fresh template ids) continuing through the shutdown window, or with single late datagrams 0.9..2.1 s after the signal following a quiet period; a final verification restart follows the last cycle; " +
 	"oracle per cycle = exit status 0 within 6 s of the signal, stderr free of panic / fatal error / concurrent map, both cache files exist, load and decode data for every acknowledged (exporter,id) to the reference decode, " +
@@ -79,6 +83,7 @@ func genC15(t *rapid.T) c15Case {
 	c.Workers = rapid.IntRange(2, 8).Draw(t, "workers")
 	c.OtherFS = rapid.IntRange(0, 3).Draw(t, "otherfs") == 0
 	c.Ambient = genAmbient(t)
+	c.RelCache = rapid.IntRange(0, 3).Draw(t, "relcache") == 0
 	// which protocols run is a valid configuration choice: a collector for one or two protocols must stop as cleanly
 	c.Disabled = rapid.SampledFrom([][]string{nil, nil, nil, {"ipfix"}, {"nf9"}, {"ipfix", "nf5"}, {"nf9", "sflow"}, {"sflow", "nf5"}, {"ipfix", "sflow", "nf5"}, {"nf9", "sflow", "nf5"}, {"nf5"}}).Draw(t, "disabled")
 	tplProtos := []string{}
@@ -128,6 +133,7 @@ func genC15(t *rapid.T) c15Case {
 			cy.NewKeys = append(cy.NewKeys, genKey())
 		}
 		cy.Noise = rapid.IntRange(0, 20).Draw(t, "noise")
+		cy.CPUs = rapid.SampledFrom([]int{0, 0, 0, 0, 1, 2, 4, 8}).Draw(t, "cpus")
 		cy.Burst = rapid.SampledFrom([]int{0, 5, 50, 300}).Draw(t, "burst")
 		cy.Signal = rapid.SampledFrom([]string{"TERM", "TERM", "INT"}).Draw(t, "signal")
 		cy.DelayMS = rapid.SampledFrom([]int{0, 0, 1, 10, 100}).Draw(t, "delay")
@@ -253,6 +259,7 @@ func runC15(c *c15Case) (v verdict, sig string, err error) {
 		}
 	}
 	v.label(len(disabled) > 0, "some-protocols-disabled")
+	v.label(c.RelCache, "relative-cache-file-names")
 	v.label(disabled["ipfix"] && !disabled["nf9"], "nf9-without-ipfix")
 	v.label(disabled["nf9"] && !disabled["ipfix"], "ipfix-without-nf9")
 
@@ -263,7 +270,12 @@ func runC15(c *c15Case) (v verdict, sig string, err error) {
 		if e != nil {
 			return v, "", e
 		}
-		proc, e := startVflow(dir, ports, e2eConfig{Workers: c.Workers, SinkAddr: sink.addr(), Disabled: disabled, Extra: c.Ambient}, false)
+		cpus := 0
+		if !verification {
+			cpus = c.Cycles[ci].CPUs
+			v.label(cpus > 0, "restricted-cpu-set")
+		}
+		proc, e := startVflow(dir, ports, e2eConfig{Workers: c.Workers, SinkAddr: sink.addr(), Disabled: disabled, Extra: c.Ambient, RelCache: c.RelCache, CPUs: cpus}, false)
 		if e != nil {
 			if proc != nil && stderrProblem(proc.stderrText()) != "" {
 				return v, "start-crash", fmt.Errorf("cycle %d: collector crashed at start-up (cache files of the previous cycle): %s", ci, proc.stderrTail())
@@ -446,6 +458,13 @@ func runC15(c *c15Case) (v verdict, sig string, err error) {
 				continue
 			}
 			file := filepath.Join(dir, map[string]string{"ipfix": "ipfix.templates", "nf9": "netflow9.templates"}[proto])
+			if c.RelCache {
+				// a relative name: wherever the collector resolves it to (working directory or configuration directory),
+				// the file it leaves must be complete; that the next start finds it is what the restart clause checks
+				if alt := filepath.Join(dir, "run", filepath.Base(file)); fileExists(alt) {
+					file = alt
+				}
+			}
 			b, e := os.ReadFile(file)
 			if e != nil {
 				return fail("cache-file", "%s template cache file missing after shutdown: %v", proto, e)
@@ -503,6 +522,11 @@ func (r *c15Rig) dataMsgNoSeq(k *c15Key, i int) []byte {
 	tp := k.Tpl
 	m := wire.Msg{Proto: k.Proto, Seq: uint32(800000 + i), Time: 1700000003, Domain: uint32(k.Exp), Count: 1, Sets: []wire.Set{{Kind: "data", Tpl: &tp, Recs: k.Recs}}}
 	return m.Bytes()
+}
+
+func fileExists(p string) bool {
+	_, err := os.Stat(p)
+	return err == nil
 }
 
 func tail(s string, n int) string {
